@@ -188,6 +188,18 @@ func (g *declGen) opt() *OptSpec {
 		o.Default = nil
 		o.OptionalValue = nil
 		o.Optional = false
+		if cfg.Defaults && cfg.BaseMulti && r.Chance(1, 2) {
+			// a default tag is read in the option's base like any other text
+			d := r.Pick([]string{"11", "10", "1"}) // (small in every base, fits every integer type)
+			if isMapKind(kind) {
+				if strings.Contains(mapKeyKind(kind), "int") {
+					d = d + ":" + genPlainText(r, elemKind(kind))
+				} else {
+					d = "k:" + d
+				}
+			}
+			o.Default = []BStr{BStr(d)}
+		}
 	}
 	if r.Chance(1, 8) && !flag {
 		o.ValueName = strings.ToUpper(w)
@@ -286,11 +298,15 @@ func (g *declGen) positionals() ([]*ArgSpec, bool) {
 	}
 	if r.Chance(1, 2) {
 		a := &ArgSpec{Field: "Rest", Kind: "[]string", Name: "rest"}
-		switch r.Intn(4) {
+		switch r.Intn(6) {
 		case 0:
 			a.Required = "1"
 		case 1:
 			a.Required = "1-2"
+		case 2:
+			a.Required = "2"
+		case 3:
+			a.Required = "2-3"
 		}
 		out = append(out, a)
 	}
